@@ -81,7 +81,9 @@ Base == [
               globals |-> << V("gk", "VAR_GLOBAL", "CONSTANT", "INT", <<"int", "17">>) >>,
               rglobals |-> << V("gv", "VAR_GLOBAL", "-", "INT", <<"int", "1">>) >>,
               tasks |-> <<"T1">>,
-              progs |-> << [n |-> "I1", task |-> "T1", ty |-> "MAIN"], [n |-> "I2", task |-> "-", ty |-> "MAIN"] >>]
+              progs |-> << [n |-> "I1", task |-> "T1", ty |-> "MAIN"], [n |-> "I2", task |-> "-", ty |-> "MAIN"] >>],
+  \* a second configuration (absent in the base unit: n = "-"); tasks are local to the resource of their configuration
+  config2 |-> [n |-> "-", globals |-> <<>>, rglobals |-> <<>>, tasks |-> <<>>, progs |-> <<>>]
 ]
 
 ---------------------------------------------------------------------------
@@ -172,7 +174,8 @@ PositionalArity(u) == \A p \in Range(u.pous) : \A s \in Calls(p) : (HasCallee(u,
 OutputsDeclared(u) == \A p \in Range(u.pous) : \A s \in Calls(p) : HasCallee(u, p, s) =>
                         \A i \in 1..Len(s.outs) : s.outs[i][1] \in Outputs(Callee(u, p, s))
 \* P0011  a task a program configuration is associated with is defined
-TaskDefined(u) == \A i \in 1..Len(u.config.progs) : u.config.progs[i].task = "-" \/ u.config.progs[i].task \in Range(u.config.tasks)
+TaskDefinedIn(c) == \A i \in 1..Len(c.progs) : c.progs[i].task = "-" \/ c.progs[i].task \in Range(c.tasks)
+TaskDefined(u) == TaskDefinedIn(u.config) /\ TaskDefinedIn(u.config2)
 \* P0016  a CONSTANT variable has an initial value (an external declaration refers to the global's value)
 ConstInitialised(u) == \A v \in AllVars(u) : (v.q = "CONSTANT" /\ v.cls # "VAR_EXTERNAL" /\ v.ty \notin FBNames(u)) => v.init # NoInit
 \* P0017  a function block instance is never CONSTANT
@@ -255,6 +258,13 @@ GrowInOut == "io1" \notin VarNames(unit.pous[1]) /\
              Edit(<<"grow:inout">>, AddStmtTo(AddVarTo(unit, 1, V("io1", "VAR_IN_OUT", "-", "INT", NoInit)), 2,
                                               C(NoWrap, "inst", <<<<"io1", "a">>>>, <<>>, <<>>)))
 GrowEmptyCall == Edit(<<"grow:emptycall">>, AddStmtTo(unit, 2, C(NoWrap, "inst", <<>>, <<>>, <<>>)))
+GrowConfig2 == unit.config2.n = "-" /\
+               Edit(<<"grow:config2">>, [unit EXCEPT !.config2 = [n |-> "CFG2", globals |-> <<>>, rglobals |-> <<>>, tasks |-> <<"T9">>,
+                                                                  progs |-> <<[n |-> "J1", task |-> "T9", ty |-> "MAIN"]>>]])
+\* a data type that has the name of a standard function block the compiler does not implement: declaring it is fine
+GrowStdNamedType == "TON" \notin TypeNames(unit) /\
+               Edit(<<"grow:stdnamedtype">>, [unit EXCEPT !.types = Append(@, [n |-> "TON", k |-> "struct",
+                                                                              elems |-> <<[n |-> "q", ty |-> "INT", init |-> NoInit]>>])])
 GrowGlobal == (\A g \in Globals(unit) : g.n # "gw") /\ Edit(<<"grow:global">>, [unit EXCEPT !.config.rglobals = Append(@, V("gw", "VAR_GLOBAL", "-", "BOOL", NoInit))])
 GrowPou == (\A p \in Range(unit.pous) : p.n # "EXTRA") /\ Edit(<<"grow:pou">>, [unit EXCEPT !.pous = Append(@, [n |-> "EXTRA", k |-> "fb",
                                    vars |-> <<V("q", "VAR", "-", "INT", NoInit), V("ci", "VAR", "-", "CALLEE", NoInit)>>,
@@ -332,7 +342,12 @@ PlantUnknownOutput == \E c \in CallSites(unit) : LET s == unit.pous[c[1]].body[c
               \E f \in {"nothere"} \cup InOuts(Callee(unit, unit.pous[c[1]], s)) :
               Edit(<<"plant:OutputsDeclared", unit.pous[c[1]].n, c[2], f>>,
                    SetStmt(unit, c[1], c[2], [s EXCEPT !.outs = Append(@, <<f, IntVar(unit.pous[c[1]]).n>>)]))
-PlantUndefinedTask == \E i \in 1..Len(unit.config.progs) : Edit(<<"plant:TaskDefined", unit.config.progs[i].n>>, [unit EXCEPT !.config.progs[i].task = "TX"])
+\* a task that is defined nowhere ("TX"), or - scoping - one that IS defined, but in the resource of the other configuration
+PlantUndefinedTask ==
+  \/ \E i \in 1..Len(unit.config.progs), t \in {"TX"} \cup (Range(unit.config2.tasks) \ Range(unit.config.tasks)) :
+        Edit(<<"plant:TaskDefined", unit.config.progs[i].n, t>>, [unit EXCEPT !.config.progs[i].task = t])
+  \/ \E i \in 1..Len(unit.config2.progs), t \in {"TX"} \cup (Range(unit.config.tasks) \ Range(unit.config2.tasks)) :
+        Edit(<<"plant:TaskDefined", unit.config2.progs[i].n, t>>, [unit EXCEPT !.config2.progs[i].task = t])
 PlantConstNoInit ==
   \/ \E i \in PouIdx(unit), ty \in {"INT", "LEVEL"} : "nc" \notin VarNames(unit.pous[i]) /\
         Edit(<<"plant:ConstInitialised", unit.pous[i].n, ty>>, AddVarTo(unit, i, V("nc", "VAR", "CONSTANT", ty, NoInit)))
@@ -344,13 +359,13 @@ PlantExternNotConst ==
   \/ \E i \in {1, 2} : Edit(<<"plant:ExternOfConstIsConst", unit.pous[i].n, "new">>, AddVarTo(unit, i, V("gk", "VAR_EXTERNAL", "-", "INT", NoInit)))
 
 Grow == (("grow" \in EditKinds) /\ (GrowVar \/ GrowConst \/ GrowStmt \/ GrowWrap \/ GrowEnumValue \/ GrowStructElem \/ GrowType \/ GrowTask
-                                     \/ GrowPositionalCall \/ GrowEmptyCall \/ GrowInOut \/ GrowGlobal \/ GrowPou))
+                                     \/ GrowPositionalCall \/ GrowEmptyCall \/ GrowInOut \/ GrowGlobal \/ GrowPou \/ GrowConfig2 \/ GrowStdNamedType))
 Plant == (("plant" \in EditKinds) /\ (PlantDupStructElem \/ PlantBadSubrange \/ PlantDupEnumValue \/ PlantUndeclaredVar \/ PlantBadEnumInit
                                        \/ PlantBadEnumStmt \/ PlantUnknownType \/ PlantStdlib \/ PlantUnknownInstance \/ PlantMix
                                        \/ PlantUnknownInput \/ PlantArity \/ PlantUnknownOutput \/ PlantUndefinedTask \/ PlantConstNoInit
                                        \/ PlantConstFB \/ PlantExternNotConst))
 
-IsGrow(e) == e[1] \in {"grow:inout", "grow:var", "grow:const", "grow:stmt", "grow:wrap", "grow:enumvalue", "grow:structelem", "grow:type", "grow:task",
+IsGrow(e) == e[1] \in {"grow:config2", "grow:stdnamedtype", "grow:inout", "grow:var", "grow:const", "grow:stmt", "grow:wrap", "grow:enumvalue", "grow:structelem", "grow:type", "grow:task",
                        "grow:positionalcall", "grow:emptycall", "grow:global", "grow:pou"}
 
 Init == unit = Base /\ edits = <<>>
@@ -392,7 +407,7 @@ LabelTargets(e) ==
     [] e[1] = "plant:InputsDeclared"        -> {"<call>", "bogus"}
     [] e[1] = "plant:PositionalArity"       -> {"<call>"}
     [] e[1] = "plant:OutputsDeclared"       -> {"<call>", e[4]}
-    [] e[1] = "plant:TaskDefined"           -> {"TX", e[2]}
+    [] e[1] = "plant:TaskDefined"           -> {e[3], e[2]}
     [] e[1] = "plant:ConstInitialised"      -> {"nc", "k"}
     [] e[1] = "plant:ConstNotFB"            -> {"nf", "CALLEE"}
     [] e[1] = "plant:ExternOfConstIsConst"  -> {"gk"}
